@@ -32,10 +32,10 @@ CLAIMS = {
              "DESIGN.md §3 C07, §9.7", "harness/src/bin/c07.rs, progs/gen_deep.py"),
     "C08": C("model-based history testing vs core::slice iterators: exhaustive (length,size,history) enumeration + seeded proptest",
              "All lengths 0..=11 x sizes 1..=12 x 8 iterator kinds x {fwd,rev,rev.rev} x {u16,()} x every front/back history run past exhaustion; items compared by address with std's iterator, as_slice()/remainder() after every step, copy() independence, size 0 panics; planted 40k/70k-element slices and sizes congruent to small values modulo 2^8/2^16; const evaluation of long iterations.",
-             "DESIGN.md §3 C08, §9.7", "harness/src/bin/c08.rs, progs/gen_deep.py"),
+             "DESIGN.md §3 C08, §9.7", "harness/src/bin/c08.rs, harness/fuzz/fuzz_targets/c08_iter.rs, progs/gen_deep.py"),
     "C09": C("model-based history testing vs core::ops range iterators: all u8/i8 pairs, boundary neighbourhoods of wider types, all histories of short ranges",
-             "All 65536 (start,end) pairs of u8 and i8, boundary neighbourhoods of the 10 wider integer types and char (incl. the surrogate gap), a..b / a..=b / a.., stepped under fixed and random front/back histories through into_iter! (by value, by reference, rev, rev.rev) and for_each! (with rev()).",
-             "DESIGN.md §3 C09", "harness/src/bin/c09.rs"),
+             "All 65536 (start,end) pairs of u8 and i8, boundary neighbourhoods of the 10 wider integer types and char (incl. the surrogate gap), a..b / a..=b / a.., stepped under fixed and random front/back histories through into_iter! (by value, by reference, rev, rev.rev) and for_each! (with rev()); in the release build `a..` is stepped 3 items past MAX (integers wrap like std; char is a listed finding).",
+             "DESIGN.md §3 C09, §9.4", "harness/src/bin/c09.rs, harness/fuzz/fuzz_targets/c09_range.rs"),
     "C12": C("differential testing vs str::parse and a reference prefix scanner: exhaustive 8/16-bit values and short strings, boundary neighbourhoods, seeded proptest",
              "Every value of the 8/16-bit types in several spellings, all strings up to 4-5 symbols over {0,1,9,-,+,a,' ',non-ASCII digit} for all 12 integer types and bool, MIN/MAX +-12 neighbourhoods with extra digits/zeros/suffixes for all types (decimal-string arithmetic for 128-bit); whole-string and Parser prefix parsing incl. offsets and error position.",
              "DESIGN.md §3 C12, §9.2", "harness/src/bin/c12.rs, progs/gen_deep.py"),
@@ -43,7 +43,7 @@ CLAIMS = {
              "A table of every safe public item that reaches an unsafe block (slice/str slicing, byte-pattern and str functions in all pattern kinds, split/chars/slice iterators, chr, CStr, maybe_uninit, manually_drop, ptr::nonnull, array/collect/from_iter/destructure macros, Parser) is driven with edge index sets (incl. usize::MAX), five element types (incl. ZST and Drop) and constructed UTF-8; every returned slice/str must lie inside its argument, be valid UTF-8 on char boundaries; unexpected panics and harness aborts caused by std's unsafe-precondition checks are violations; a compact corpus of the same calls runs under Miri, 600+ generated `const` items over 34 call templates (plus a pointer null-test family) are evaluated by rustc's const evaluator (UB = hard error) and compared with their run-time value, and the compile-fail engine contributes the acceptances that would make safe code unsound (Drop types with fields, references, lifetime laundering, unions).",
              "DESIGN.md §3 C01, §9.2", "harness/src/bin/c01.rs (+ Miri), harness/src/bin/c11.rs --property C01, progs/gen_const.py, progs/gen_closure_exits.py, progs/gen_destructure.py (packed structs under Miri), progs/gen_reject.py (G1, G2, G10, G11)"),
     "C06": C("model-based history testing vs str::split family: exhaustive strings x delimiters, all front/back histories for char delimiters",
-             "All strings up to 7 chars over {a,b,é} x all &str delimiters up to 3 chars (incl. empty, overlapping) and char delimiters: split/rsplit/split_terminator/rsplit_terminator pieces compared by address with std step by step, remainder() after every step, rev() forms, and every front/back interleaving of split/rsplit for char delimiters.",
+             "All strings up to 7 chars over {a,b,é} x all &str delimiters up to 3 chars (incl. empty, overlapping) and char delimiters: split/rsplit/split_terminator/rsplit_terminator pieces compared by address with std step by step, remainder() after every step, rev() forms, every front/back interleaving of split/rsplit for char delimiters, and for &str delimiters (the empty one included) against a deque of std's pieces whenever split and rsplit decompose the string alike, with rev() of the rest after every step (defect F20).",
              "DESIGN.md §3 C06, §9.2", "harness/src/bin/c06.rs, progs/gen_deep.py"),
     "C10": C("differential testing of generated programs: typed chain grammar rendered as konst DSL and as the identical std chain, compared on enumerated inputs",
              "A committed pairwise corpus (every adapter x every consumer) plus seeded random chains (depth <= 5, 14 sources, 13 adapters, 13 consumers, all closure forms, eval!/for_each!, and a const-context collect_const! batch) are compiled against /repo and run on all small inputs; disagreements are attributed to a listed known finding only when the chain has its structural signature and matches that finding's alternative model (source-reversed std chain; std with take(n+1); std over `end..=end` for an exhausted RangeInclusive source; the konst chain with flat_map's parameter renamed; equality apart from the evaluation count of a function-valued argument expression). Closures also use a variable of the caller, fold/rfold also take a tuple accumulator destructured by the closure, function-path arguments are written as counted function-valued expressions.",
@@ -67,14 +67,14 @@ CLAIMS = {
              "600+ generated literal sets (all escape kinds, line continuations, raw strings, concat!, related alternatives) for the six forms, each run on every string up to 3 chars over the literals' alphabet + concatenations through two parser constructions; branch, remainder and offsets must equal the reference; literals that rustc accepts but the macro rejects are violations too; branch bodies in every syntactic form (block, bare expression, call, nested macro, trailing comma or not), literals forwarded through caller macro_rules! as literal/expr/tt fragments, a calling crate that shadows assert!/unreachable! and defines constants named like the macro helper items, whole `a | b` lists forwarded as one `pat` fragment, `\\u{..}` escapes with `_` separators, and 30% of the match-form programs inside the caller's own loop with branch bodies that continue / break (plain or labelled) / return / fall through, compared with the same loop around the reference (defects F10-F12).",
              "DESIGN.md §3 C18, §9.3.1", "progs/gen_parser_method.py"),
     "C19": C("differential testing vs std Option/Result/cmp functions with call counters + generated rebind programs with rustc verdicts",
-             "Every option::/result:: macro in every argument form on both variants and boundary payloads with fallback call counts, try_!/try_opt! vs `?`, min/max families on keyed values with identity tags; try_rebind!/rebind_if_ok! for every arity 1..=6 and position kind (complete to arity 3) compiled alone (must compile) and compared with a hand-written match on Ok and Err inputs (evaluation counts of the operand included; typed, mut, ref and coercion-site let forms); every macro argument is an effectful expression whose evaluation count (and, outside min/max, order) must equal the std call.",
+             "Every option::/result:: macro in every argument form on both variants and boundary payloads with fallback call counts, try_!/try_opt! vs `?`, min/max families on keyed values with identity tags; try_rebind!/rebind_if_ok! for every arity 1..=6 and position kind (complete to arity 3) compiled alone (must compile) and compared with a hand-written match on Ok and Err inputs (evaluation counts of the operand included; typed, mut, ref and coercion-site let forms); every macro argument is an effectful expression whose evaluation count and order must equal the std call (defect F19: max_by_key!); function-valued argument expressions are counted too (listed finding).",
              "DESIGN.md §3 C19", "harness/src/bin/c19.rs, progs/gen_rebind.py"),
     "C20": C("complete enumeration of CStr inputs vs core::ffi::CStr + generated const programs for the concat/join macros vs std",
-             "All byte strings up to length 7 over {0,'a',0xFF} and up to 5 over a UTF-8-relevant alphabet for the CStr constructors/views; 800+ generated const items for str_concat!/str_join!/string::from_iter!/slice_concat! (all argument forms, empty lists/pieces, multi-byte separators) compared with concat/join/collect at run time.",
-             "DESIGN.md §3 C20, §9.2", "harness/src/bin/c20.rs, progs/gen_concat.py, progs/gen_deep.py"),
+             "All byte strings up to length 7 over {0,'a',0xFF} and up to 5 over a UTF-8-relevant alphabet for the CStr constructors/views; 800+ generated const items for str_concat!/str_join!/string::from_iter!/slice_concat! (all argument forms, empty lists/pieces, multi-byte separators) compared with concat/join/collect at run time; a quarter of the programs have a caller module named `core`, element types mention caller constants named like the macros' items, and total lengths that overflow usize must be rejected in both profiles (defects F21-F23).",
+             "DESIGN.md §3 C20, §9.2, §9.3.1", "harness/src/bin/c20.rs, progs/gen_concat.py, progs/gen_deep.py"),
     "C16": C("differential testing vs PartialEq/Ord on boundary-value tables: all pairs, all Option combinations, all triples for the order laws",
-             "Every public eq_*/cmp_* function (14 scalar types, their slices, Option variants, NonZero, ranges, Ordering, str, &[&str], &[&[u8]]) and const_eq!/const_cmp!/const_eq_for!/const_cmp_for!/assertc_* forms over all pairs of boundary values and all pairs of slices of length <= 3, plus antisymmetry/transitivity over all triples.",
-             "DESIGN.md §3 C16, §9.2", "harness/src/bin/c16.rs, progs/gen_deep.py"),
+             "Every public eq_*/cmp_* function (14 scalar types, their slices, Option variants, NonZero, ranges, Ordering, str, &[&str], &[&[u8]]) and const_eq!/const_cmp!/const_eq_for!/const_cmp_for!/assertc_* forms over all pairs of boundary values and all pairs of slices of length <= 3, plus antisymmetry/transitivity over all triples; assertc_eq!/assertc_ne! with effectful operands (each evaluated once, the compared value is that evaluation's); range bounds congruent modulo 2^8..2^64 and RangeInclusive operands iterated to exhaustion (listed finding).",
+             "DESIGN.md §3 C16, §9.2, §9.3.1 F18, §9.4", "harness/src/bin/c16.rs, harness/fuzz/fuzz_targets/c16_cmp.rs, progs/gen_deep.py"),
 }
 
 PENDING_REASON = "check not built yet in this session (planned in DESIGN.md §3); will be claimed once its engine exists and is silent on the unchanged tree"
@@ -117,7 +117,7 @@ def main():
              "kind_free_text": "python3 grammar-based program generators + driver: generated Rust is compiled from /repo's tree by cargo/rustc and executed (or must fail to compile); descriptors shrink by batch delta debugging"},
         ],
         "checks": checks,
-        "notes": "All checks: exit 0 held / exit 1 + VIOLATION line / exit 2 infrastructure trouble. Known findings are in /verif/known_findings.txt. Every in-process engine runs in two builds in both tiers (dev: debug assertions + overflow checks; release: neither), on a 2 MiB thread stack; the program engines have the same two profiles. Beyond their exhaustive bounds all engines share the planted families described in DESIGN.md 9.7 (single-point differences on long inputs, inputs longer than 2^16, indices / lengths / sizes congruent to small values modulo 2^8, 2^16, 2^32, one char per UTF-8 lead byte, chars differing in one encoded byte, NUL, effectful macro arguments, caller constants named like the macros' helper items, const evaluation of long inputs). tools/run_all.sh <quick|thorough> runs every check in turn; the last full thorough run on the unchanged tree took about 80 min and was silent. Every generated program is compiled inside a hostile calling crate (shadowed assert!/debug_assert!/assert_eq!/assert_ne!/unreachable!, constants named like the macros' helper items).",
+        "notes": "All checks: exit 0 held / exit 1 + VIOLATION line / exit 2 infrastructure trouble. Known findings are in /verif/known_findings.txt. Every in-process engine runs in two builds in both tiers (dev: debug assertions + overflow checks; release: neither), on a 2 MiB thread stack; the program engines have the same two profiles. Beyond their exhaustive bounds all engines share the planted families described in DESIGN.md 9.7 (single-point differences on long inputs, inputs longer than 2^16, indices / lengths / sizes congruent to small values modulo 2^8, 2^16, 2^32, one char per UTF-8 lead byte, chars differing in one encoded byte, NUL, effectful macro arguments, caller constants named like the macros' helper items, const evaluation of long inputs). tools/run_all.sh <quick|thorough> runs every check in turn; the last full thorough run on the unchanged tree took about 80 min and was silent. Every generated program - batched or compiled alone - sits in a hostile calling crate (shadowed assert!/debug_assert!/assert_eq!/assert_ne!/unreachable!, root modules named core and std, constants named like the macros' helper items; compile-fail programs also with a caller-defined compile_error!, array-macro programs with a trait that gives array references a by-value len). 22 genuine defects were found by the checks and repaired with fix: commits in /repo, 12 more are listed as known findings with alternative models (known_findings.txt, DESIGN.md 9.3, 9.3.1, 9.4).",
         "not_applicable": na,
     }
     with open(os.path.join(VERIF, "MANIFEST.json"), "w") as f:
